@@ -487,7 +487,7 @@ def c08(tier_):
 def c09(tier_):
     na, npt = reps(tier_, (4, 2), (30, 4))
     plan = [(s, None, na, npt) for s in ALLVAL if s != 'sod_1d'] + [('sod_1d', [('source_rho', 'SS'), ('source_rho_u', 'SS')], na, npt)]
-    plan.append(('navierstokes_ablation_1d_steady', [c for c in map(tuple, CAT['navierstokes_ablation_1d_steady']['caps']) if c[0].startswith('exact_')], na, npt))
+    plan.append(('navierstokes_ablation_1d_steady', [c for c in map(tuple, CAT['navierstokes_ablation_1d_steady']['caps']) if c[0] != 'source_rho_e'], na, npt))      # (source_rho_e is not in the oracle)
     gen.FULL_MANTISSA[0] = True      # generic 53-bit inputs: sums and products of the inputs are inexact in double
     return value_check('C09', tier_, plan, kbits=6, all_known=True, mix=True, accstat=True, zeros=(tier_ == 'thorough'),
         rule='all solutions of C01-C08, each assignment and point evaluated in both precisions with identical (exactly representable) inputs; transport coefficients and velocity amplitudes rescaled by random decades so that different groups of terms dominate, inputs generic 53-bit doubles; each result must be finite and within 2^6 u_p mag of the 45-digit oracle value (u_d = 2^-53, u_ld = 2^-64), hence double and long double agree to double precision; and per (solution, evaluator) the median error of the long double results, in long double roundoffs, must not exceed the median error of the double results, in double roundoffs, by more than 4 bits (history variable acc of MasaTrace): long double is not limited to double accuracy.')
